@@ -3,6 +3,7 @@
 #include <primitiv/core/device.h>
 #include <primitiv/core/functions.h>
 #include <primitiv/core/parameter.h>
+#include <primitiv/core/shape_ops.h>
 
 namespace {
 
@@ -322,6 +323,9 @@ Tensor softmax(const Tensor &x, std::uint32_t dim) {
 
 template<>
 Tensor softmax_cross_entropy(const Tensor &x, const Tensor &t, std::uint32_t dim) {
+  // `x` and `t` must have the same dimensions as operators::SoftmaxCrossEntropy
+  // requires (a scalar operand would otherwise be broadcast by `operator*`).
+  shape_ops::elementwise(x.shape(), t.shape());
   return -sum(t * log_softmax(x, dim), dim);
 }
 
